@@ -114,6 +114,7 @@ pub fn entry(max: u32, allow_unsupported: bool) -> BoxedStrategy<EntrySpec> {
                     le.insert(0, big);
                 }
             }
+            let zstd_frames = if method == 93 { [0u8, 0, 2, 3][content.len() % 4] } else { 0 };
             let raw_payload = if matches!(method, 0 | 8 | 12 | 93) { None } else { Some(Content::Rand { seed: content.len() as u64 * 31 + 7, len: (content.len() as u32 / 2 + 3).min(5000) }) };
             EntrySpec {
                 name: nb.0,
@@ -140,6 +141,7 @@ pub fn entry(max: u32, allow_unsupported: bool) -> BoxedStrategy<EntrySpec> {
                 gap_before: gap,
                 flags_extra,
                 desc_mode,
+                zstd_frames,
             }
         })
         .boxed()
